@@ -237,10 +237,12 @@ func (v *SortValue) EquivalentTo(compareValue *SortValue) bool {
 		switch compareValue.Type {
 		case IntegerType, BooleanType:
 			return v.Integer == compareValue.Integer
+		case FloatType:
+			return v.Float == compareValue.Float
 		}
 	case FloatType:
 		switch compareValue.Type {
-		case FloatType:
+		case IntegerType, FloatType:
 			if math.IsNaN(v.Float) && math.IsNaN(compareValue.Float) {
 				return true
 			}
